@@ -132,12 +132,13 @@ static Token *mk(TokenKind k, char *sp, int line, bool bol) {
   return t;
 }
 
-static Token *r0, *r1, *rx, *r2, *reof;   // result tokens
+static Token *r0, *rw, *r1, *rx, *r2, *reof;   // result tokens
 static void run(void) {
   HAVOC_IN();
   __CPROVER_assume(1 <= IN.q0 && IN.q0 < IN.p && IN.p < IN.q1 && IN.q1 < IN.q2 && IN.q2 <= (1 << 20));
   __CPROVER_assume(0 <= IN.n && IN.n <= (1 << 30));
   mk(TK_IDENT, "__LINE__", IN.q0, true);
+  Token *w = mk(TK_IDENT, "W", IN.q0, false);       // an ordinary token BEFORE the directive
 #ifdef INCOND          // the directive sits inside a conditional group:  #ifdef __LINE__ ... #endif
   mk(TK_PUNCT, "#", IN.q0, true); mk(TK_IDENT, "ifdef", IN.q0, false); mk(TK_IDENT, "__LINE__", IN.q0, false);
 #endif
@@ -158,15 +159,16 @@ static void run(void) {
   Token *r = preprocess(first);
 
   VASSERT(!verif_diag, "no diagnostic");
-  r0 = r; r1 = r0->next; rx = r1->next; r2 = rx->next; reof = r2->next;
-  VASSERT(r0->kind == TK_NUM && r1->kind == TK_NUM && rx == x && r2->kind == TK_NUM && reof->kind == TK_EOF,
-          "output is  NUM NUM X NUM EOF  (the directive line vanished, each __LINE__ became a number)");
+  r0 = r; rw = r0->next; r1 = rw->next; rx = r1->next; r2 = rx->next; reof = r2->next;
+  VASSERT(r0->kind == TK_NUM && rw == w && r1->kind == TK_NUM && rx == x && r2->kind == TK_NUM && reof->kind == TK_EOF,
+          "output is  NUM W NUM X NUM EOF  (the directive line vanished, each __LINE__ became a number)");
   VASSERT(verif_fmt_calls == 3, "three __LINE__ expansions");
 }
 
 void h_line_before(void) {
   run();
   VASSERT(r0->val == IN.q0, "__LINE__ before any #line == physical line");
+  VASSERT(rw->line_no == IN.q0, "the line recorded for diagnostics/.loc of a token BEFORE the directive is its physical line (a later #line does not renumber it)");
   VCOVER();
 }
 void h_line_relative(void) {
